@@ -252,6 +252,79 @@ pub fn run(tier: Tier) -> i32 {
     }
 
     // ---------------------------------------------------------------- E1: LZMA2 (accumulating window, dictionary resets)
+    // ---------------------------------------------------------------- a second payload on the same raw decoder WITHOUT reset: the state and
+    // the rep distances of the first payload are still there, the window is new and empty - a first symbol that refers
+    // back (a literal in a matched-literal state, a short rep, a rep match, also at the end marker's distance 2^32) has
+    // nothing to refer to and must be rejected, never decoded against bytes that are not there
+    {
+        let name = "E1/raw/second-payload-without-reset";
+        if ctx.may_start(name) {
+            let t0 = Instant::now();
+            let firsts: Vec<(&str, Vec<Sym>)> = vec![
+                ("ends with a match", vec![Sym::L(0x41), Sym::L(0x42), Sym::M(2, 5)]),
+                ("ends with a short rep", vec![Sym::L(0x41), Sym::L(0x42), Sym::M(1, 2), Sym::L(0x43), Sym::S]),
+                ("ends with a rep match", vec![Sym::L(0x41), Sym::L(0x42), Sym::M(2, 3), Sym::L(0x43), Sym::R(0, 4)]),
+                ("ends with the end marker", vec![Sym::L(0x41), Sym::L(0x42), Sym::M(2, 3), Sym::E]),
+                ("ends with literal, match, end marker", vec![Sym::L(0x41), Sym::M(1, 4), Sym::E]),
+            ];
+            let mut n = 0u64;
+            for (lc, lp, pb) in [(3u32, 0u32, 2u32), (0, 0, 0)] {
+                for (fname, first) in &firsts {
+                    let marker = matches!(first.last(), Some(Sym::E));
+                    let e1 = enc::encode(lc, lp, pb, 4096, first);
+                    // ... and second payloads written the way a WRONG decoder would read them (plain literal instead of
+                    // the matched literal that has no match byte; zero bytes for a copy from before the window), complete with
+                    // an end marker: a correct decoder stops at the first symbol, a defective one sails through to Ok
+                    if marker {
+                        for (sname, second, plain, zeros) in [
+                            ("a literal (coded as a plain literal), more literals, end marker", vec![Sym::L(0x51), Sym::L(0x52), Sym::E], true, false),
+                            ("a short rep, a literal, end marker (a decoder that fabricates zero bytes accepts it)", vec![Sym::S, Sym::L(0x53), Sym::E], false, true),
+                            ("a rep0 match, a literal, end marker (fabricated zeros)", vec![Sym::R(0, 4), Sym::L(0x54), Sym::E], false, true),
+                            ("a literal coded as plain, a short rep on it, end marker", vec![Sym::L(0x55), Sym::S, Sym::E], true, true),
+                        ] {
+                            let mut m = enc::Model::new(lc, lp, pb).with_dict(4096);
+                            let _ = enc::encode_with(&mut m, first);
+                            m.reset_dict();
+                            m.wrong_plain_literal_outside_window = plain;
+                            m.wrong_zeros_outside_window = zeros;
+                            let e2 = enc::encode_with(&mut m, &second);
+                            let ops = vec![RawOp::Dec(Hex(e1.payload.clone())), RawOp::Dec(Hex(e2.payload.clone()))];
+                            let case = Case::RawLzma { lc, lp, pb, dict: 4096, size: None, memlimit: None, ops };
+                            let o = crate::cases::run_case(&case);
+                            n += 1;
+                            ctx.eval(1);
+                            ctx.nontriv(1);
+                            let ok = o.ops.len() == 2 && o.ops[0].v.is_ok() && o.ops[1].v.is_err() && o.out.0.is_empty();
+                            if !ok {
+                                ctx.violation(&case, &format!("raw decoder lc={} lp={} pb={}: first payload {} [{}]; second payload without reset: {}: the first reference lies before the (new, empty) window => Err and nothing delivered", lc, lp, pb, fname, prog_str(first), sname), &o, None);
+                            }
+                        }
+                    }
+                    // the second payload is encoded by a model that continues from the first one's state (so that its first
+                    // symbol really is the symbol named), window emptied
+                    for (sname, second) in [("a literal", vec![Sym::L(0x51), Sym::L(0x52)]), ("a short rep", vec![Sym::S]), ("a rep0 match", vec![Sym::R(0, 3)]), ("a rep1 match", vec![Sym::R(1, 2)])] {
+                        let mut m = enc::Model::new(lc, lp, pb).with_dict(4096);
+                        let _ = enc::encode_with(&mut m, first);
+                        m.reset_dict();
+                        let e2 = enc::encode_with(&mut m, &second);
+                        let size1 = if marker { None } else { Some(e1.expect.len() as u64) };
+                        let ops = vec![RawOp::Dec(Hex(e1.payload.clone())), RawOp::Dec(Hex(e2.payload.clone()))];
+                        let case = Case::RawLzma { lc, lp, pb, dict: 4096, size: size1, memlimit: None, ops };
+                        let o = crate::cases::run_case(&case);
+                        n += 1;
+                        ctx.eval(1);
+                        ctx.nontriv(1);
+                        // a literal right after a literal-ended first payload would be fine; all `firsts` end in a copy or marker
+                        let ok = o.ops.len() == 2 && o.ops[0].v.is_ok() && o.ops[1].v.is_err() && o.out.0.is_empty();
+                        if !ok {
+                            ctx.violation(&case, &format!("raw decoder lc={} lp={} pb={}: first payload {} [{}]; second payload without reset starts with {}: the reference lies before the (new, empty) window => Err and nothing delivered", lc, lp, pb, fname, prog_str(first), sname), &o, None);
+                        }
+                    }
+                }
+            }
+            ctx.scope_done(name, n, t0, "5 first payloads x 4 first symbols of the second payload x 2 settings");
+        }
+    }
     // ---------------------------------------------------------------- valid copies in the second and third lap of the window that end
     // exactly at its end (the output must not depend on what the earlier lap left in the cells that follow)
     {
